@@ -41,7 +41,7 @@ struct SharedPage {
 static SharedPage *g_page = nullptr;
 static int g_worker_fd = -1;        // worker side of the socketpair
 static int g_point = 0;             // points seen in the current step
-static int g_kill_at = 0, g_pause_at = 0;
+static int g_kill_at = 0, g_pause_at = 0, g_fail_at = 0;   // fail_at: the system call whose BEFORE point has this number fails without being made
 static bool g_in_step = false;
 
 static void point(const char *call, int after) {
@@ -56,11 +56,13 @@ static void point(const char *call, int after) {
     while (read(g_worker_fd, &c, 1) == 1) { if (c == '\n') break; line += c; }
   }
 }
+static bool fail_now() { return g_in_step && g_fail_at && g_point == g_fail_at; }
 extern "C" {
 sem_t *vw_sem_open(const char *name, int oflag, ...) {
   mode_t mode = 0; unsigned value = 0;
   if (oflag & O_CREAT) { va_list ap; va_start(ap, oflag); mode = (mode_t)va_arg(ap, int); value = va_arg(ap, unsigned); va_end(ap); }
   point("sem_open", 0);
+  if (fail_now()) { point("sem_open", 1); errno = EMFILE; return SEM_FAILED; }
   sem_t *r = (oflag & O_CREAT) ? sem_open(name, oflag, mode, value) : sem_open(name, oflag);
   int e = errno; point("sem_open", 1); errno = e;
   return r;
@@ -69,10 +71,10 @@ int vw_sem_close(sem_t *s) { point("sem_close", 0); int r = sem_close(s); int e 
 int vw_sem_unlink(const char *n) { point("sem_unlink", 0); int r = sem_unlink(n); int e = errno; point("sem_unlink", 1); errno = e; return r; }
 int vw_sem_wait(sem_t *s) { point("sem_wait", 0); int r = sem_wait(s); int e = errno; point("sem_wait", 1); errno = e; return r; }
 int vw_sem_post(sem_t *s) { point("sem_post", 0); int r = sem_post(s); int e = errno; point("sem_post", 1); errno = e; return r; }
-int vw_shm_open(const char *n, int fl, mode_t m) { point("shm_open", 0); int r = shm_open(n, fl, m); int e = errno; point("shm_open", 1); errno = e; return r; }
+int vw_shm_open(const char *n, int fl, mode_t m) { point("shm_open", 0); if (fail_now()) { point("shm_open", 1); errno = EMFILE; return -1; } int r = shm_open(n, fl, m); int e = errno; point("shm_open", 1); errno = e; return r; }
 int vw_shm_unlink(const char *n) { point("shm_unlink", 0); int r = shm_unlink(n); int e = errno; point("shm_unlink", 1); errno = e; return r; }
-int vw_ftruncate(int fd, off_t l) { point("ftruncate", 0); int r = ftruncate(fd, l); int e = errno; point("ftruncate", 1); errno = e; return r; }
-void *vw_mmap(void *a, size_t l, int p, int f, int fd, off_t o) { point("mmap", 0); void *r = mmap(a, l, p, f, fd, o); int e = errno; point("mmap", 1); errno = e; return r; }
+int vw_ftruncate(int fd, off_t l) { point("ftruncate", 0); if (fail_now()) { point("ftruncate", 1); errno = EIO; return -1; } int r = ftruncate(fd, l); int e = errno; point("ftruncate", 1); errno = e; return r; }
+void *vw_mmap(void *a, size_t l, int p, int f, int fd, off_t o) { point("mmap", 0); if (fail_now()) { point("mmap", 1); errno = ENOMEM; return MAP_FAILED; } void *r = mmap(a, l, p, f, fd, o); int e = errno; point("mmap", 1); errno = e; return r; }
 int vw_munmap(void *a, size_t l) { point("munmap", 0); int r = munmap(a, l); int e = errno; point("munmap", 1); errno = e; return r; }
 int vw_close(int fd) { point("close", 0); int r = close(fd); int e = errno; point("close", 1); errno = e; return r; }
 }
@@ -101,9 +103,9 @@ void worker_main(int fd) {
     if (!fgets(line, sizeof line, in)) { if (errno == EINTR && !feof(in)) { clearerr(in); continue; } break; }
     auto w = vl::split_ws(line);
     if (w.empty()) continue;
-    g_kill_at = 0; g_pause_at = 0;
+    g_kill_at = 0; g_pause_at = 0; g_fail_at = 0;
     vector<string> a;
-    for (auto &t : w) { if (t.rfind("kill=", 0) == 0) g_kill_at = atoi(t.c_str() + 5); else if (t.rfind("pause=", 0) == 0) g_pause_at = atoi(t.c_str() + 6); else a.push_back(t); }
+    for (auto &t : w) { if (t.rfind("kill=", 0) == 0) g_kill_at = atoi(t.c_str() + 5); else if (t.rfind("pause=", 0) == 0) g_pause_at = atoi(t.c_str() + 6); else if (t.rfind("fail=", 0) == 0) g_fail_at = atoi(t.c_str() + 5); else a.push_back(t); }
     const string &cmd = a[0];
     auto I = [&](size_t i) { return i < a.size() ? atol(a[i].c_str()) : 0L; };
     g_point = 0; g_in_step = true;
@@ -204,7 +206,7 @@ void worker_main(int fd) {
 // coordinator
 // ======================================================================================================
 struct Worker { pid_t pid = -1; int fd = -1; bool dead = false; bool busy = false; string rbuf; };
-struct Step { int worker = 0; string cmd; vector<long> args; string sarg; int kill = 0, pause = 0; };
+struct Step { int worker = 0; string cmd; vector<long> args; string sarg; int kill = 0, pause = 0, fail = 0; };
 struct Case { string prop = "C06"; vector<Step> steps; int pad = 0; /* names are <unique prefix> + pad x 'n' + <digit>: long names that differ only in their last character */ };
 
 string step_text(const Step &s) {
@@ -213,6 +215,7 @@ string step_text(const Step &s) {
   for (long a : s.args) os << ' ' << a;
   if (s.kill) os << " kill=" << s.kill;
   if (s.pause) os << " pause=" << s.pause;
+  if (s.fail) os << " fail=" << s.fail;
   return os.str();
 }
 string to_text(const Case &c) { std::ostringstream os; os << "ipcx " << c.prop; if (c.pad) os << " pad=" << c.pad; os << "\n"; for (auto &s : c.steps) os << step_text(s) << "\n"; return os.str(); }
@@ -224,6 +227,7 @@ bool from_text(const string &t, Case &c) {
     for (size_t i = 2; i < w.size(); i++) {
       if (w[i].rfind("kill=", 0) == 0) s.kill = atoi(w[i].c_str() + 5);
       else if (w[i].rfind("pause=", 0) == 0) s.pause = atoi(w[i].c_str() + 6);
+      else if (w[i].rfind("fail=", 0) == 0) s.fail = atoi(w[i].c_str() + 5);
       else if (isalpha((unsigned char)w[i][0])) s.sarg = w[i];
       else s.args.push_back(atol(w[i].c_str()));
     }
@@ -560,8 +564,19 @@ Outcome run_c07(const Case &c, bool thorough) {
       int kill = s.kill;
       if (kill && !exists && (kill == 2 || kill == 3) && vl::excluded("crash-recovery-unsized-segment")) { kill += 2; vl::stats().count("excluded_kill_before_ftruncate_remapped"); }
       if (kill) cmd << " kill=" << kill;
+      int failpt = kill ? 0 : s.fail;
+      if (failpt) cmd << " fail=" << failpt;
       string r = co.call(w, cmd.str());
       if (co.bad()) break;
+      if (failpt && r.rfind("null", 0) == 0) {
+        // a system call inside p_shm_new failed (injected): the call reported failure.  Whatever it had done by then must be undone, and
+        // nothing that existed before may be harmed: an absent name stays absent, an existing segment keeps its name, its bytes, its lock
+        co.classes.insert(exists ? "new_failed_by_fault_on_existing_name" : "new_failed_by_fault_on_absent_name");
+        bool seg = vi::exists(vi::shm_file(name)), lck = vi::exists(vi::shm_lock_file(name));
+        if (!exists && (seg || lck)) { co.fail("failed-new-leaves-name", "p_shm_new on an absent name failed (system call at point " + std::to_string(failpt) + " failed) but left " + string(seg ? "the segment" : "the lock semaphore") + " name behind"); break; }
+        if (exists && (!seg || !lck)) { co.fail("failed-new-removes-name", "a p_shm_new that merely FAILED (system call at point " + std::to_string(failpt) + " failed) removed the " + string(!seg ? "segment" : "lock semaphore") + " name of the existing segment: later opens address different memory than the handles opened before"); break; }
+        continue;
+      }
       if (r == "DEAD") {
         killed_any = true; co.classes.insert("kill_in_shm_new");
         for (auto &h : handles) if (h.first.first == w) h.second.live = false;
@@ -857,7 +872,7 @@ rc::Gen<Step> genStep(const string &prop, bool kills) {
   using namespace rc;
   if (prop == "C06") {
     auto cmd = gen::weightedElement<string>({{8, "new"}, {12, "acq"}, {5, "rel"}, {2, "own"}, {3, "free"}, {2, "phase"}, {2, "race"}});
-    return gen::map(gen::tuple(rng(0, 3), cmd, rng(0, 3), rng(0, 2), gen::element<long>(0, 1, 2, 3, 7), rng(0, 2), kills ? gen::weightedOneOf<int>({{6, gen::just(0)}, {1, rng(1, 9)}}) : gen::just(0)),
+    return gen::map(gen::tuple(rng(0, 3), cmd, rng(0, 3), rng(0, 2), gen::weightedElement<long>({{4, 0}, {4, 1}, {4, 2}, {4, 3}, {4, 7}, {1, 32767}, {1, 32768}, {1, 65536}, {1, 2147483647}}), rng(0, 2), kills ? gen::weightedOneOf<int>({{6, gen::just(0)}, {1, rng(1, 9)}}) : gen::just(0)),
                     [](const std::tuple<int, string, int, int, long, int, int> &t) { Step s; s.worker = std::get<0>(t); s.cmd = std::get<1>(t); s.args = {std::get<2>(t), std::get<3>(t), std::get<4>(t), std::get<5>(t)}; if (s.cmd == "new" || s.cmd == "free" || s.cmd == "acq") s.kill = std::get<6>(t); if (s.cmd == "race") s.pause = 1 + (std::get<2>(t) + 2 * std::get<5>(t)) % 4; return s; });
   }
   if (prop == "C07") {
@@ -867,6 +882,7 @@ rc::Gen<Step> genStep(const string &prop, bool kills) {
                       if (s.cmd == "store" || s.cmd == "load") s.args = {std::get<2>(t), std::get<3>(t) + std::get<5>(t) % 7, std::get<4>(t) + std::get<5>(t), std::get<5>(t)};
                       else s.args = {std::get<2>(t), std::get<3>(t), std::get<4>(t), std::get<5>(t)};
                       if (s.cmd == "new" || s.cmd == "lock") s.kill = std::get<6>(t);
+                      if (s.cmd == "new" && s.kill == 0 && std::get<5>(t) % 6 == 0) s.fail = 1 + 2 * (std::get<7>(t) % 7);   // a BEFORE point (odd numbers) of p_shm_new
                       if (s.cmd == "race") s.pause = std::get<7>(t);
                       return s; });
   }
